@@ -10,6 +10,9 @@ QUICK = [
     # telegrams with more data bytes than any registered ID (NN up to 6): longest prefix whatever the data length
     ("ans-nn6", ["answer=1", "submit=0", "qq=03", "zz=36", "nn=6", "snn=0", "data=42", "pb=b5", "sb=09",
                  "ans=aa:36:b509:42:0142", "ans=aa:36:b509:4242:0143", "longto=0", "echofaults=0"]),
+    # two MM answers with nested IDs and different total lengths: the longest prefix that ALSO fits the length rule
+    ("ans-master-nested", ["answer=1", "submit=0", "qq=03", "zz=31", "nn=5", "snn=0", "data=42,00", "pb=b5", "sb=09",
+                           "ans=aa:31:b509:42:020000", "ans=aa:31:b509:-:050000000000", "longto=0", "echofaults=0"]),
     # answer as master (MM): own master address, length rule
     ("ans-master", ["answer=1", "submit=0", "qq=03,1f", "zz=31,36", "nn=2", "snn=0", "data=42,00", "pb=b5", "sb=09",
                     "ans=aa:31:b509:42:0100", "ans=aa:36:b509:4242:0155", "longto=0"]),
